@@ -112,7 +112,38 @@ def yield_span(node):
     return None if lo is None else (lo, hi)
 
 
-def shape_spans(node, inp):
+def lark_extent(node):
+    """The extent lark's PropagatePositions can see for a derivation node: like yield_span, except that a ?rule alternative which
+    collapses to a Token hands only that token upwards (a Token has no container fields), so the filtered tokens around it are lost
+    for every ancestor that begins or ends with it. Used to *identify* that recorded finding, never as the oracle."""
+    kind = node[0]
+    if kind == 't':
+        return (node[4], node[5])
+    if kind == 'none':
+        return None
+    _, alt, children, i, j = node
+    rule = alt.rule
+    if rule.expand1 and not alt.alias and not rule.inline:
+        kids = []
+        for c in children:
+            kids.extend(shape_spans(c, None))
+        if len(kids) == 1:
+            k = kids[0]
+            if k is None:
+                return None
+            if isinstance(k, tuple) and k and k[0] == 'tok':
+                return k[2]
+    lo = hi = None
+    for c in children:
+        s = lark_extent(c)
+        if s is None:
+            continue
+        lo = s[0] if lo is None else min(lo, s[0])
+        hi = s[1] if hi is None else max(hi, s[1])
+    return None if lo is None else (lo, hi)
+
+
+def shape_spans(node, inp, extent=yield_span):
     kind = node[0]
     if kind == 't':
         _, term, kept, typed, i0, j = node
@@ -124,13 +155,13 @@ def shape_spans(node, inp):
     _, alt, children, i, j = node
     kids = []
     for c in children:
-        kids.extend(shape_spans(c, inp))
+        kids.extend(shape_spans(c, inp, extent))
     rule = alt.rule
     if rule.inline:
         return kids
     if rule.expand1 and not alt.alias and len(kids) == 1:
         return [kids[0]]
-    return [_node(alt.alias or rule.name, yield_span(node), kids)]
+    return [_node(alt.alias or rule.name, extent(node), kids)]
 
 
 def expand_ambig(t):
